@@ -505,14 +505,17 @@ impl Callbacks for Cb {
                         negative = matches!(hdr.polarity, ty::ImplPolarity::Negative);
                     }
                     let items: Vec<String> = tcx.associated_item_def_ids(did).iter().map(|d| esc(&tcx.def_path_str(*d))).collect();
+                    // the impl's own where-clauses / generic bounds (`T: Send`, `A: Allocator + Sync`, ...)
+                    let preds: Vec<String> = tcx.predicates_of(did).predicates.iter().map(|(c, _)| esc(&format!("{:?}", c))).collect();
                     let loc = sm.lookup_char_pos(tcx.def_span(did).lo());
                     let _ = write!(
                         impls,
-                        "{{\"self_ty\":{},\"trait\":{},\"unsafe\":{},\"negative\":{},\"macro\":{},\"file\":{},\"line\":{},\"items\":[{}]}}",
+                        "{{\"self_ty\":{},\"trait\":{},\"unsafe\":{},\"negative\":{},\"preds\":[{}],\"macro\":{},\"file\":{},\"line\":{},\"items\":[{}]}}",
                         esc(&self_ty),
                         tr,
                         is_unsafe,
                         negative,
+                        preds.join(","),
                         tcx.def_span(did).from_expansion(),
                         esc(&format!("{}", loc.file.name.prefer_local_unconditionally())),
                         loc.line,
